@@ -10,6 +10,7 @@ def load_worlds():
     import worlds.enip_seq          # noqa: F401
     import worlds.enip_proto        # noqa: F401
     import worlds.enip_conc         # noqa: F401
+    import worlds.enip_hostile      # noqa: F401
     _loaded = True
 
 
@@ -107,5 +108,21 @@ PROPS = {
         assumptions=['linearizability search capped at 2e5 nodes; a cap hit is counted as undecided, never as pass or fail'],
         quick=dict(parts=[dict(world='c09', count=400)]),
         thorough=dict(parts=[dict(world='c09', count=20000)]),
+    ),
+    'C08': dict(
+        level='exploration',
+        rule=('one seed -> an attacker session sends 3..14 frames: valid frames of every kind mutated blindly (bit flips, '
+              'insert/delete/truncate, random bytes, frame twice) or structure-aware (an inconsistent value in one of the '
+              'length/count/offset/size/type fields at any nesting level: encapsulation, CPF, Unconnected Send, EPATH, bundle '
+              'offsets, element counts, Forward Open), whole or chunked, reconnecting when dropped; a victim session runs '
+              'model-checked traffic concurrently, a prober opens fresh sessions.  Oracles: calls executed by the handling '
+              'thread <= 4e5 + 6000 x bytes (deterministic count, about 16x the worst valid request), thread returns to waiting '
+              'or ends, no exception leaves a server thread, listener alive, any tag change equals the effect of some subset '
+              '(in order) of the complete frames in the delivered byte stream read leniently; non-trivial = >= 3 attacks'),
+        assumptions=['work bound calibrated on valid traffic (max observed ~400 calls/byte)',
+                     'a change is explained by a lenient reading of the frame: inconsistent size fields are tolerated as long '
+                     'as service, path, type and values can be read off in order'],
+        quick=dict(parts=[dict(world='c08', count=320)]),
+        thorough=dict(parts=[dict(world='c08', count=16000)]),
     ),
 }
